@@ -51,7 +51,11 @@ TRUSTED = [
     "C08_lle_scale_free / C08_local_gram_scale / C08_eig_contract_scale (the property's matrix does not change)",
     "stream hlle-curved-sym: that the integer columns span the top-d local eigenspace is certified per neighbourhood in "
     "exact rational arithmetic by the check (locv_certificate; C08_diag_cov_eigvec is the reason it holds); that the "
-    "HLLE local matrix depends on the tangent coordinates only through their span is used, not proved",
+    "HLLE local matrix depends on the tangent coordinates only through their affine span is "
+    "C08_hlle_local_basis_free (exact statement; the C++ eigenvectors are binary64 approximations of such a basis)",
+    "global solver call (eigendecomposition_impl_dense) replicated by the harness on the matrix the routine returned: "
+    "its contract (full orthonormal E, S E = E diag(lam), ascending, constant first column when the smallest "
+    "eigenvalue is simple) is checked in exact arithmetic on every call, through the extracted eig_contract_b for N <= 8",
     "extraction (ExtrOcamlBasic only) + OCaml 4.13.1 + coq/extract/c08_driver.ml (parsing/printing of hex rationals)",
     "harness/c08.cpp: replicates the local oracle calls and the statements of tapkee::embed()/embedUsing for the three "
     "methods only (the generic 20-method dispatcher is not instantiated: compile time)",
@@ -514,9 +518,11 @@ def gen_emb(rng, meth, thorough):
         k = rng.randint(3, min(5, n - 1))
     else:
         k = rng.randint(max(3, d + 1), n - 1)
-    shift = rng.choice(["0x1p-10", "0x1p-20"] + (["0x1.12e0be826d695p-30"] if meth == "ltsa" else []))
+    shift = rng.choice(["0x1p-12", "0x1p-20"] + (["0x1.12e0be826d695p-30"] if meth == "ltsa" else []))
+    # the two shifts of KLLE are never equal and differ by orders of magnitude: a method class that passes them to
+    # linear_weight_matrix in the wrong order (or one of them twice) changes W visibly, not within the tolerance
     c = {"kind": "EMB", "meth": meth, "nm": nm, "n": n, "k": k, "d": d, "shift": shift,
-         "tshift": rng.choice(["0x1p-10", "0x1p-7"]), "kern": kernel_table(pts, kind),
+         "tshift": rng.choice(["0x1p-10", "0x1p-7", "0x1p-3"]), "kern": kernel_table(pts, kind),
          "gen": "emb-%s-%s%s" % (meth, kind, "-flat" if flat else "")}
     if flat:
         c["flatX"] = [list(x) for x in X]
